@@ -144,6 +144,7 @@ def run(prog: Program, rep: Report, tier: str):
             t = ia.sym.term(val, n)
             if t[0] == "param":
                 mapping[t[1]] = var[5:]
+    ckpt_var: Dict[str, str] = {}  # unit -> the local (or parameter) that holds the completed component
     for u in UNITS:
         st = [(n, val) for n, var, val in ia.stores() if var == f"self.start_{u}"]
         ok = None
@@ -152,11 +153,29 @@ def run(prog: Program, rep: Report, tier: str):
             ok = True
             for n, val in st:
                 names_ = {lf[1] for lf in leaves(ia.sym.term(val, n)) if lf[0] in ("var", "param")} if val is not None else set()
-                if names_ != {f"start_{u}"}:
+                if len(names_) == 1 and isinstance(val, ast.Name):
+                    v_ = next(iter(names_))
+                    # the stored local is the completed component of *this* unit: some definition of it is the given parameter
+                    # start_<u> itself (the pass-through branch), none is another unit's parameter
+                    srcs = {lf[1] for d_, var_, val_ in ia.stores() if var_ == v_ and val_ is not None
+                            for lf in [ia.sym.term(val_, d_)] if lf[0] == "param"} | ({v_} if v_ == f"start_{u}" else set())
+                    other = {f"start_{w}" for w in UNITS if w != u}
+                    if v_ == f"start_{u}" or (f"start_{u}" in srcs and not (srcs & other) and v_ not in other):
+                        ckpt_var[u] = v_
+                    elif v_ in other:
+                        ok = False
+                        why = f"self.start_{u} is stored from {v_}, not from start_{u}"
+                    elif srcs & other:
+                        ok = False
+                        why = f"self.start_{u} is stored from '{v_}', which passes {', '.join(sorted(srcs & other))} through"
+                    else:
+                        ok = None
+                        why = f"self.start_{u} is stored from '{v_}', whose relation to start_{u} is not recognised"
+                else:
                     ok = False
                     why = f"self.start_{u} is stored from {', '.join(sorted(names_)) or 'a constant'}, not from start_{u}"
             if ok:
-                why = f"self.start_{u} = start_{u}"
+                why = f"self.start_{u} = {ckpt_var.get(u, 'start_' + u)}"
         else:
             ok = False
         rep.decide(ok, "G9.checkpoint-stores", init, f"store:start_{u}", why, why,
@@ -171,17 +190,20 @@ def run(prog: Program, rep: Report, tier: str):
              "is exempt where the branch rejects 'not drop_last' by raising")
     dep = Deps(ia)
     branches: Dict[str, List[Tuple[int, str, ast.AST]]] = {u: [] for u in UNITS}
+    var_unit = {ckpt_var.get(u, f"start_{u}"): u for u in UNITS}
     for n, var, val in ia.stores():
-        if var in ("start_epoch", "start_update", "start_sample") and val is not None:
-            conds = ia.conds_at(n, asserts=False)
+        if var in var_unit and val is not None:
+            conds = _infer(ia.conds_at(n, asserts=False))
             given = [u for u in UNITS if negate(is_none(("param", f"start_{u}"))) in conds]
             if len(given) == 1:
-                branches[given[0]].append((n, var, val))
+                if ia.sym.term(val, n) == ("param", f"start_{given[0]}"):
+                    continue  # the given component passed through
+                branches[given[0]].append((n, f"start_{var_unit[var]}", val))
     n_derived = 0
     for g in UNITS:
         rejects_no_drop_last = False
         for r in [n for n, nd in icfg.nodes.items() if nd.kind == "stmt" and isinstance(nd.ast, ast.Raise)]:
-            conds = ia.conds_at(r, asserts=False)
+            conds = _infer(ia.conds_at(r, asserts=False))
             if negate(is_none(("param", f"start_{g}"))) not in conds:
                 continue
             for c in conds:
@@ -211,7 +233,7 @@ def run(prog: Program, rep: Report, tier: str):
                        f"{var}, derived from start_{g}, does not depend on {', '.join(missing)}: two configurations that "
                        f"differ only there get the same checkpoint although their uninterrupted runs differ",
                        line=ia.line(n), clause="C06.2")
-    rep.floor("derived checkpoint components", n_derived, 6)
+    rep.floor("derived checkpoint components", n_derived, 4)  # 6 on the pinned tree; branches may share an assignment
 
     # ---- epoch length agreement (case table) -----------------------------------------------------------------------------
     rep.rule("G9.epoch-length-agreement", "for each geometry case (no drop_last | drop_last | drop_last with drop_last_batch_size) "
@@ -345,6 +367,25 @@ def passes_stateless(prog: Program, rep: Report):
                        f"the second pass of one object differs from the first pass of a fresh one, so a resumed run does not "
                        f"reproduce the interleaved passes of the uninterrupted run", line=call.lineno, clause="C06.4")
     rep.floor("random draws in the package's sampler classes", n, 2)
+
+
+def _infer(conds):
+    """Unit propagation over the branch conditions: from 'a or b or c' and 'not a', 'not b' follows c (the last arm of an
+    if / elif / else chain over 'which component was given')."""
+    conds = list(conds)
+    flat = set()
+    for c in conds:
+        flat |= set(c[1]) if c[0] == "and" else {c}
+    changed = True
+    while changed:
+        changed = False
+        for c in list(flat):
+            if c[0] == "or":
+                rest = [d for d in c[1] if negate(d) not in flat]
+                if len(rest) == 1 and rest[0] not in flat:
+                    flat.add(rest[0])
+                    changed = True
+    return list(conds) + [c for c in flat if c not in conds]
 
 
 def _unattr(t):
